@@ -11,6 +11,8 @@ mod refbuiltins;
 mod refeval;
 mod p01;
 mod p02;
+mod p04;
+mod p05;
 mod p06;
 mod p09;
 mod p10;
@@ -22,6 +24,8 @@ fn make(id: &str, tier: Tier) -> Option<Box<dyn Property>> {
     Some(match id {
         "C01" => Box::new(p01::P01::new(tier)),
         "C02" => Box::new(p02::P02::new(tier)),
+        "C04" => Box::new(p04::P04::new(tier)),
+        "C05" => Box::new(p05::P05::new(tier)),
         "C06" => Box::new(p06::P06::new(tier)),
         "C10" => Box::new(p10::P10::new(tier)),
         "C09" => Box::new(p09::P09::new(tier)),
